@@ -70,6 +70,7 @@ def plan(tier, seed):
         for name, value in MODES:
             jobs.append({"k": "probe", "mode": name, "flavour": fl})
             jobs.append({"k": "battery", "mode": name, "flavour": fl})
+            jobs.append({"k": "probe", "mode": name, "flavour": fl, "blocks": 64, "workers": "2"})
     return jobs
 
 
@@ -127,11 +128,44 @@ def run_job(job, ctx):
 
 def _probe(ctx, job, value, cls, fl):
     script = lua_script("probe.lua")
-    root = run.make_repo({"f.py": '# <block name="p" check-lua="%s">\nx = 1\n# </block>\n' % script})
+    nblocks = job.get("blocks", 1)
+    text = "".join('# <block name="p%d" check-lua="%s">\nx = %d\n# </block>\n' % (i, script, i) for i in range(nblocks))
+    root = run.make_repo({"f.py": text})
+    env = _env_for(value, fl)
+    if job.get("workers"):
+        env["TOKIO_WORKER_THREADS"] = job["workers"]
     try:
-        res = run.run(ctx.bins[fl], [], root, stdin=None, env=_env_for(value, fl), cpu_limit=60)
+        res = run.run(ctx.bins[fl], [], root, stdin=None, env=env, cpu_limit=120)
     finally:
         run.rm(root)
+    if nblocks > 1:
+        # every block of a crowded run must see the same environment as a single block does
+        dl = diag_list(res) or []
+        msgs = [(d.get("data") or {}).get("lua_error", "") for _f, d in dl if d.get("code") == "check-lua"]
+        if len(msgs) != nblocks:
+            return [Case(INCONCLUSIVE, key=h(job), summary="crowded probe run returned %d of %d reports: %s" % (len(msgs), nblocks, res.err_text()[:200]))]
+        distinct = sorted(set(msgs))
+        out = []
+        for i, m in enumerate(distinct):
+            bad_paths = []
+            phase = ""
+            for line in m.split("\n")[1:]:
+                if line == "@@LOADTIME":
+                    phase = "@load:"
+                    continue
+                path, _, typ = line.rpartition("=")
+                if not typ.startswith("alias:") and not allowed_path(path, cls):
+                    bad_paths.append(phase + path)
+            key = h(["crowd", job["mode"], fl, i])
+            sets = {"mode": [job["mode"]], "crowded_run_distinct_environments": [str(len(distinct))]}
+            if bad_paths:
+                out.append(Case(VIOLATED, key=key, nontrivial=True, sets=sets, sig="C17/reachable-in-crowded-run/%s/%s" % (cls, bad_paths[0]),
+                                summary="mode %r, %d blocks in one run: %d block(s) see %s outside the %s allow-list" % (
+                                    value, nblocks, msgs.count(m), bad_paths[:4], cls),
+                                witness={"mode": job["mode"], "env_value": value, "blocks": nblocks, "paths": bad_paths[:20]}))
+            else:
+                out.append(Case(HELD, key=key, nontrivial=True, sets=sets, counters={"crowded_probe_blocks": msgs.count(m)}))
+        return out
     msg = _lua_message(res)
     wit = {"mode": job["mode"], "env_value": value, "flavour": fl}
     if msg is None or not msg.startswith("PROBE\n"):
@@ -217,9 +251,11 @@ MUST_BLOCK_DEFAULT = {"io_open_read", "io_open_write", "io_lines", "io_popen", "
                       "os_tmpname", "os_time", "require_io", "require_os", "package_loaded_io", "package_loadlib",
                       "package_loadlib_sym", "require_cmod", "require_luamod", "dofile", "loadfile", "debug_getregistry",
                       "debug_getinfo", "debug_via_registry_io", "coroutine_io", "coroutine_dofile", "pcall_require", "searchers",
-                      "loadtime_dofile", "loadtime_loadfile", "loadtime_io", "loadtime_os", "loadtime_require", "loadtime_debug"}
+                      "loadtime_dofile", "loadtime_loadfile", "loadtime_io", "loadtime_os", "loadtime_require", "loadtime_debug",
+                      "load_ret_dofile", "load_ret_loadfile", "load_ret_G_dofile", "load_ret_require", "load_ret_io_open", "load_ret_os_getenv",
+                      "load_ret_debug"}
 NATIVE = {"package_loadlib", "package_loadlib_sym", "require_cmod"}
-DEBUG = {"debug_getregistry", "debug_getinfo", "debug_via_registry_io", "pcall_require", "loadtime_debug"}
+DEBUG = {"debug_getregistry", "debug_getinfo", "debug_via_registry_io", "pcall_require", "loadtime_debug", "load_ret_debug"}
 
 
 def _battery(ctx, job, value, cls, fl):
